@@ -193,6 +193,9 @@ func (p *Validator) validateBuffer(buf []byte, last bool) error {
 			if depth < 0 || p.stack[depth] != '{' {
 				return p.newError(off, "unexpected object close")
 			}
+			if p.mode == valueMap { // a member value is still expected after the colon
+				return p.newError(off, "unexpected object close")
+			}
 			p.stack = p.stack[0:depth]
 			p.mode = afterMap
 		case val0:
